@@ -215,6 +215,44 @@ func (p *Prog) walkBodies(fn *ssa.Function, linkFields map[string]bool) []walkBo
 			}
 		}
 	}
+	// iterator form (range-over-func): `for q := range helper(id) { body }` — the helper returns the walking function
+	// and the loop body is a closure handed to it as its yield parameter
+	for _, b := range fn.Blocks {
+		for _, in := range b.Instrs {
+			call, ok := in.(*ssa.Call)
+			if !ok {
+				continue
+			}
+			hc, ok := call.Call.Value.(*ssa.Call)
+			if !ok || calleeOf(hc) == nil || !hasModPrefix(calleeOf(hc)) {
+				continue
+			}
+			var mc *ssa.MakeClosure
+			for _, a := range call.Call.Args {
+				if m, isMC := a.(*ssa.MakeClosure); isMC {
+					mc = m
+				}
+			}
+			walker := returnedClosure(calleeOf(hc))
+			if mc == nil || walker == nil || len(walker.Params) == 0 {
+				continue
+			}
+			for _, w := range findLinkWalks(walker, linkFields) {
+				for _, yin := range instrsIn(walker, func(x ssa.Instruction) bool {
+					yc, isCall := x.(*ssa.Call)
+					return isCall && yc.Call.Value == ssa.Value(walker.Params[0])
+				}) {
+					if !naturalLoop(w.Header)[yin.Block()] {
+						continue
+					}
+					if ok, _ := everyIterationPasses(yin, func(x ssa.Instruction) bool { return x == yin }, nil); !ok {
+						continue
+					}
+					out = append(out, walkBody{Fn: mc.Fn.(*ssa.Function), Walk: w, MC: mc, Call: yin.(ssa.CallInstruction)})
+				}
+			}
+		}
+	}
 	return out
 }
 
